@@ -418,6 +418,11 @@ def matrix_schema():
              M.Entity('ab3', supers=['ab0'], abstract=True, sexpr=('oneof', [('leaf', 'ab4'), ('leaf', 'ab5')]), attrs=[M.Attr('p3', M.STR())]),
              M.Entity('ab4', supers=['ab3'], attrs=[M.Attr('p4', M.INT())]),
              M.Entity('ab5', supers=['ab3'], attrs=[M.Attr('p5', M.INT())])]
+    # several attributes declared in one clause: each name carries the clause's OPTIONAL and type
+    mo = M.Entity('mo', attrs=[M.Attr('m1', M.REAL(), True), M.Attr('m2', M.REAL(), True), M.Attr('m3', M.REAL(), True),
+                               M.Attr('m4', M.INT()), M.Attr('m5', M.INT()), M.Attr('m6', M.STR(), True), M.Attr('m7', M.STR(), True)])
+    mo.merge_decls = True
+    ents.append(mo)
     return M.Schema('c03_matrix', types, ents)
 
 
